@@ -33,13 +33,13 @@ def _rb(mass, theta, r, p, name):
     return RigidBody(mass, np.diag(np.asarray(theta, float)), q0, np.zeros(6), name=name)
 
 
-def _spring(system, body, anchor, B_r, k, l_ref, name="spring"):
-    """linear spring in force form between the inertial point `anchor` and the body point B_r"""
+def _spring(system, body, anchor, B_r, k, l_ref, name="spring", compliance_form=False):
+    """linear spring (force form by default) between the inertial point `anchor` and the body point B_r"""
     from cardillo.interactions import TwoPointInteraction
     from cardillo.force_laws import Spring
 
     tpi = TwoPointInteraction(system.origin, body, B_r_CP1=np.asarray(anchor, float), B_r_CP2=np.asarray(B_r, float), name=name + "_tpi")
-    return [tpi, Spring(tpi, k, l_ref=l_ref, compliance_form=False, name=name)]
+    return [tpi, Spring(tpi, k, l_ref=l_ref, compliance_form=compliance_form, name=name)]
 
 
 def _moving_frame(from_rest=False):
@@ -187,12 +187,13 @@ def _contributions(scen, system, spring, grav=True):
         gravity(b, 0.9)
         if spring:
             rest += _spring(system, b, [0.6, 0.0, 0.0], [0.0, 0.05, 0.0], 30.0, 0.6)
-    elif scen == "spring_pend":
-        # elastic pendulum: point mass on a force-form spring under gravity, no constraint (used by C19)
+    elif scen in ("spring_pend", "spring_pend_c"):
+        # elastic pendulum: point mass on a force-form (compliance-form: _c) spring under gravity, no constraint (used by C19);
+        # the spring direction W_c(q) turns with the mass (seeded C19-j)
         pm = PointMass(1.5, q0=np.array([0.6, 0.2, -0.5]), u0=np.zeros(3), name="pm")
         bodies = [pm]
         gravity(pm, 1.5)
-        rest += _spring(system, pm, [0.0, 0.0, 0.0], [0.0, 0.0, 0.0], 80.0, 0.6)
+        rest += _spring(system, pm, [0.0, 0.0, 0.0], [0.0, 0.0, 0.0], 80.0, 0.6, compliance_form=scen.endswith("_c"))
     elif scen == "free_top":
         # torque-free rigid body, no constraint (used by C19)
         b = _rb(1.0, (0.05, 0.08, 0.13), [0.0, 0.0, 0.0], pg, "top")
